@@ -28,7 +28,7 @@ func driveKvWaitPrompt(opt *Options) error {
 	defer tw.Close()
 	idle := 2200 * time.Millisecond
 	type sc struct{ change string }
-	for _, s := range []sc{{"put"}, {"delete"}} {
+	for _, s := range []sc{{"put"}, {"delete"}, {"putprev"}} {
 		for attempt := 0; attempt < 3; attempt++ {
 			mr, err := miniredis.Run()
 			if err != nil {
@@ -70,6 +70,9 @@ func driveKvWaitPrompt(opt *Options) error {
 			t0 := time.Now()
 			if s.change == "put" {
 				st.Put(ctx, kvs.Record{Key: "k", Value: []byte("v2")})
+			} else if s.change == "putprev" {
+				// the new value MENTIONS the version it replaces (a "previous version" link)
+				st.Put(ctx, kvs.Record{Key: "k", Value: []byte(`{"prev":"` + rec.Version + `"}`)})
 			} else {
 				st.Delete(ctx, "k")
 			}
@@ -103,7 +106,8 @@ func driveKvWaitDeadline(tw *TraceWriter) error {
 			scs = append(scs, sc{be, "none", d})
 		}
 	}
-	scs = append(scs, sc{"inmem", "expire", 2500 * time.Millisecond}, sc{"inmem", "expire", 1500 * time.Millisecond})
+	scs = append(scs, sc{"inmem", "expire", 2500 * time.Millisecond}, sc{"inmem", "expire", 1500 * time.Millisecond},
+		sc{"inmem", "expire2", 2500 * time.Millisecond}, sc{"inmem", "expire2", 1500 * time.Millisecond})
 	for _, s := range scs {
 		for attempt := 0; attempt < 3; attempt++ {
 			var st kvs.Storage
@@ -121,7 +125,7 @@ func driveKvWaitDeadline(tw *TraceWriter) error {
 			r := kvs.Record{Key: "k", Value: []byte("v1")}
 			expireIn := 60 * time.Millisecond
 			var expAt time.Time
-			if s.change == "expire" {
+			if s.change == "expire" || s.change == "expire2" {
 				expAt = time.Now().Add(expireIn)
 				r.ExpiresAt = &expAt
 			}
@@ -147,6 +151,15 @@ func driveKvWaitDeadline(tw *TraceWriter) error {
 					last = n
 				}
 			}()
+			if s.change == "expire2" {
+				// another waiter registers first, ours joins it, then the first one gives up - long before the record runs out
+				c1, cancel1 := context.WithCancel(ctx)
+				go func() {
+					callPanics(func() { st.WaitForVersionChange(c1, "k", rec.Version) })
+				}()
+				time.Sleep(10 * time.Millisecond)
+				time.AfterFunc(12*time.Millisecond, cancel1)
+			}
 			c, cancel := context.WithTimeout(ctx, s.timeout)
 			t0 := time.Now()
 			var werr error
@@ -166,7 +179,7 @@ func driveKvWaitDeadline(tw *TraceWriter) error {
 				res = "ctxerr"
 			}
 			late := t1.Sub(t0.Add(s.timeout)).Milliseconds()
-			if s.change == "expire" {
+			if s.change == "expire" || s.change == "expire2" {
 				late = t1.Sub(expAt).Milliseconds()
 			}
 			tw.Emit(map[string]any{"e": "deadline", "backend": s.backend, "change": s.change, "timeout_ms": s.timeout.Milliseconds(),
